@@ -563,9 +563,11 @@ theorem run_lay (ws : List Word) : ∀ (gs : List Gap) (indent : Nat) (first : W
       | newline n =>
         simp only [layWords, List.map_cons, List.cons_append, kindOf, isAmp, run_cons]
         rw [hnext false (5 + n) gs (Or.inl (by omega)), step_data s hb]
-      | amp pre t n =>
-        simp only [layWords, List.map_cons, List.cons_append, kindOf, isAmp, run_cons]
-        rw [hnext true n gs (Or.inr rfl), step_data s hb]
+      | amp pre t cs n =>
+        simp only [layWords, List.map_cons, List.cons_append, List.map_append, List.append_assoc, kindOf, isAmp,
+          run_cons]
+        rw [run_comments, hnext true n gs (Or.inr rfl), step_data s hb]
+        simp
       | dollar pre text n =>
         simp only [layWords, List.map_cons, List.cons_append, kindOf, isAmp, run_cons]
         rw [hnext false (5 + n) gs (Or.inl (by omega)), step_data s hb]
